@@ -279,6 +279,15 @@ func builders(r *RunCtx) {
 				// (the bytes themselves are not compared: the per-field section table is
 				// written in Go map iteration order, so equal builds differ bytewise)
 				r.count("probe.build.size-compared")
+			} else if ref.size > 0 {
+				// two pristine builds of this batch already differ bytewise (map-ordered
+				// sections): sizes then vary by some tens of bytes, not by more. A build
+				// that is larger than that carries something the batch did not contain.
+				slack := 64 + ref.size/20
+				if j.size > ref.size+slack || j.size+slack < ref.size {
+					r.fail("C10.history", "New.size", "%s: New reported size %d, the same batch in a pristine builder %d (sizes of equal builds differ by tens of bytes only)", desc, j.size, ref.size)
+				}
+				r.count("probe.build.size-compared-with-slack")
 			}
 			j.seg.Close()
 			r.count("op.build")
